@@ -11,7 +11,9 @@ PairVerdict(c, o) ==
   IF o.compat # Compatible(a, b) THEN "units-compatible@1"
   ELSE IF o.equiv # Equivalent(a, b) THEN "units-equivalent@1"
   ELSE IF ~Compatible(a, b) THEN
-       (IF o.link # "err:FinamMetaDataError" \/ o.prep # "err:FinamDataError" THEN "units-refused@1" ELSE "ok")
+       \* "refused with a data or metadata error"
+       (IF ~(o.link \in {"err:FinamMetaDataError", "err:FinamDataError"}) \/ ~(o.prep \in {"err:FinamMetaDataError", "err:FinamDataError"})
+        THEN "units-refused@1" ELSE "ok")
   ELSE IF o.link # "ok" \/ o.prep # "ok" THEN "units-accepted@1"
   ELSE IF \E k \in 1..Len(o.linksame) : ~o.linksame[k] THEN "units-link-variant@1"   \* static link read twice, integer payload
   ELSE IF HasOffset(a, b) THEN
